@@ -52,12 +52,39 @@ def layout(text, rng):
     return text
 
 
+def _fname(term):
+    import re as _re
+    return "-".join(_re.findall(r"[A-Za-z_][A-Za-z0-9_]*|[\[\]().?=>]", term)[:5])
+
+
 def inject(text, kind, rng):
     """Returns (new text, fault name, identifier position or None) or None if the fault does not apply."""
     toks = lexer.tokenize(text)
     ids = [t for t in toks if t.kind == "id" and t.text not in lexer.KEYWORDS]
     fault = rng.choice(["undeclared", "undeclared", "drop-operand", "unbalanced", "stray", "type-error", "side-effect",
-                        "unterminated-comment"])
+                        "unterminated-comment", "semantic", "semantic"])
+    if fault == "semantic":
+        # errors raised by the builders while the block is being parsed (the grammar goes on after them) and type
+        # errors found later by the type checker, at a random conjunct / list position
+        bool_terms = ["(forall (qz : bool) qz)", "(exists (qz : clock) true)", "((sum (qz : bool) 1) > 0)", "(forall (qz : nosuchtype) (true))",
+                      "(g0.nofield > 0)", "(N(1) > 0)", "(g0[1] > 0)", "(c0 > 1)", "(forall (qz : int[0,1]) qz.f > 0)", "(exists (qz : N) (qz.x > 0))",
+                      "(numOf(g0) > 0)", "(gx0[0] > 1)", "(N.x.y > 0)", "(abs(1, 2) > 0)", "(g0 ? 1 : c0)", "(gx0 > c0)", "(g0 == c0)"]
+        upd_terms = ["g0 = (forall (qz : bool) qz)", "g0 = g0.nofield", "g0 = N(1)", "g0[1] = 2", "N = 3", "g0 = c0", "c0 = 1", "g0 = sum (qz : clock) 1",
+                     "spawn N(1)", "exit()", "g0 = numOf(g0)", "gx0 = gx0[1]", "g0 = abs(1, 2)", "N++", "g0 = (exists (qz : nosuchtype) (true))"]
+        if kind in ("label:guard", "label:invariant"):
+            parts = [p for p in text.split("&&")]
+            term = rng.choice(bool_terms)
+            k = rng.randint(0, len(parts))
+            if any(ch in text for ch in "?:") or "||" in text or "forall" in text or "exists" in text:
+                return text + " && " + term, fault + ":" + _fname(term), None
+            parts.insert(k, " " + term + " ")
+            return "&&".join(parts), fault + ":" + _fname(term), None
+        if kind == "label:assignment":
+            term = rng.choice(upd_terms)
+            if rng.random() < 0.5:
+                return term + ", " + text, fault + ":" + term.split()[0], None
+            return text + ", " + term, fault + ":" + term.split()[0], None
+        return None
     if fault == "undeclared":
         uses = ids
         if kind in ("declaration", "parameter", "label:select", "system"):
